@@ -242,6 +242,7 @@ type bndProver struct {
 	work   []bnode
 	depth  int // nesting of provers (call-site queries)
 	contra bool
+	assume map[ssa.Value]bool // boolean values the query takes as given (a flag parameter fixed by the caller)
 }
 
 var zeroLin = blin{}
@@ -695,6 +696,9 @@ func (p *bndProver) expand(n bnode) {
 			if k, ok := intConstOf(x.Y); ok && k >= 1 {
 				p.le(me, blin{c: k - 1})
 				p.le(blin{c: -(k - 1)}, me)
+				// the remainder has the sign of the dividend
+				p.conds = append(p.conds, &bcond{a: zeroLin, b: a, then: [][2]blin{{zeroLin, me}}})
+				p.touch(a.n)
 			}
 		}
 	case *ssa.Phi:
@@ -783,6 +787,21 @@ func (p *bndProver) callFacts(x *ssa.Call, me blin) {
 		a := bnorm(x.Call.Args[len(x.Call.Args)-1])
 		p.le(zeroLin, me)
 		p.le(blin{me.n, 1}, a)
+	case "time.Time.Hour":
+		p.le(zeroLin, me)
+		p.le(me, blin{c: 23})
+	case "time.Time.Minute", "time.Time.Second":
+		p.le(zeroLin, me)
+		p.le(me, blin{c: 59})
+	case "time.Time.Nanosecond":
+		p.le(zeroLin, me)
+		p.le(me, blin{c: 999999999})
+	case "time.Time.Day":
+		p.le(blin{c: 1}, me)
+		p.le(me, blin{c: 31})
+	case "time.Time.YearDay":
+		p.le(blin{c: 1}, me)
+		p.le(me, blin{c: 366})
 	case "unicode/utf8.RuneLen":
 		p.le(blin{c: -1}, me)
 		p.le(me, blin{c: 4})
@@ -1108,8 +1127,36 @@ func (p *bndProver) joinEdges(j *bjoin) bool {
 			// the condition of the edge the value arrives on
 			q.condFact(iff.Cond, blk.Succs[0] == j.at, 0)
 		}
+		// an edge that contradicts what the query assumes about a boolean (a flag parameter known
+		// to be true at the call under consideration) cannot be taken
+		if len(p.assume) > 0 && j.at != nil {
+			if cond, onTrue, ok := edgeGovernor(blk, j.at); ok {
+				core, neg := cond, false
+				for {
+					u, isNot := core.(*ssa.UnOp)
+					if !isNot || u.Op != token.NOT {
+						break
+					}
+					core, neg = u.X, !neg
+				}
+				if want, has := p.assume[core]; has && (onTrue != neg) != want {
+					subs = append(subs, nil)
+					continue
+				}
+			}
+		}
+		q.assume = p.assume
 		q.saturate(l)
 		subs = append(subs, q)
+	}
+	feasible := 0
+	for _, q := range subs {
+		if q != nil {
+			feasible++
+		}
+	}
+	if feasible == 0 {
+		return false
 	}
 	news := false
 	me := blin{n: j.v}
@@ -1122,6 +1169,9 @@ func (p *bndProver) joinEdges(j *bjoin) bool {
 			worst, ok := int64(-(1 << 50)), true
 			for i, l := range j.in {
 				q := subs[i]
+				if q == nil {
+					continue
+				}
 				q.saturate(blin{n: t})
 				var c int64
 				if l.n == t {
@@ -1147,6 +1197,9 @@ func (p *bndProver) joinEdges(j *bjoin) bool {
 			worst, ok := int64(1<<50), true
 			for i, l := range j.in {
 				q := subs[i]
+				if q == nil {
+					continue
+				}
 				var c int64
 				if l.n == t {
 					c = l.c
@@ -2762,4 +2815,24 @@ func bndPartClass(part string) string {
 		return "lower"
 	}
 	return ""
+}
+
+// edgeGovernor: the branch that decides whether control goes from blk to `to`: blk's own If, or —
+// when blk is straight-line code — the If that led into it. Returns the condition and whether
+// the edge is its true side.
+func edgeGovernor(blk, to *ssa.BasicBlock) (ssa.Value, bool, bool) {
+	src, dst := blk, to
+	for hops := 0; hops < 4; hops++ {
+		if iff, isIf := src.Instrs[len(src.Instrs)-1].(*ssa.If); isIf {
+			if src.Succs[0] == src.Succs[1] {
+				return nil, false, false
+			}
+			return iff.Cond, src.Succs[0] == dst, true
+		}
+		if len(src.Preds) != 1 {
+			return nil, false, false
+		}
+		src, dst = src.Preds[0], src
+	}
+	return nil, false, false
 }
